@@ -14,6 +14,21 @@ def conc(kind, v):
     if v["t"] == "bool": return ('bool', v["b"])
     return ('str', v["s"])
 
+BITS = {"u8": 8, "u16": 16, "u32": 32, "u64": 64, "u128": 128, "i8": 8, "i16": 16, "i32": 32, "i64": 64, "i128": 128}
+def representable(kind, v):
+    """is the abstract value exactly representable in the concrete kind? (the property constrains an operator only
+    when operands and exact result are representable; TLC's pools guarantee it for the small shapes, the larger
+    thorough-tier shapes are filled by formula and can leave the range of the 8-bit kinds)"""
+    if v[0] != 'num': return True
+    x = v[2]
+    if kind in BITS:
+        if x.denominator != 1: return False
+        b = BITS[kind]
+        return (0 <= x < 2 ** b) if kind[0] == 'u' else (-2 ** (b - 1) <= x < 2 ** (b - 1))
+    if kind == "f32": return abs(x.numerator) < 2 ** 24 and (x.denominator & (x.denominator - 1)) == 0
+    if kind == "f64": return abs(x.numerator) < 2 ** 53 and (x.denominator & (x.denominator - 1)) == 0
+    return True
+
 def define(name, kind, sh, vals):
     sc, r, c = sh
     if sc == 1:
@@ -28,10 +43,12 @@ def run(rep, tier, seed):
     cases = t.cases
     cases.sort(key=lambda c: (c["sig"], c["ls"], c["rs"], c["fill"]))
     log(f"[C01] TLC: {t.generated} states, {len(cases)} cases in {t.wall:.1f}s")
-    reqs = []; meta = []
+    reqs = []; meta = []; skipped = [0]
     for n, cs in enumerate(cases):
         for kind in CONCRETE[cs["cn"]]:
             L = [conc(kind, v) for v in cs["L"]]
+            if not all(representable(kind, v) for v in L): skipped[0] += 1; continue
+            if not cs["un"] and not all(representable(kind, conc(kind, v)) for v in cs["R"]): skipped[0] += 1; continue
             stmts = [define("A", kind, cs["ls"], L)]
             op = OPTEXT.get(cs["op"], cs["op"])
             if cs["un"]:
@@ -70,6 +87,9 @@ def run(rep, tier, seed):
         if exp == "closure":
             exp = "accept" if sacc[(cs["op"], kind)] else "free"
         res = cs["res"]
+        rk0 = "bool" if cs["op"] in ("==", "!=", "<", "<=", ">", ">=", "&&", "||", "xor", "not") else kind
+        if exp != "reject" and any(e["def"] and not representable(rk0, conc(rk0, e["v"])) for e in res.get("d", [])):
+            tally["free"] += 1; tally["result_not_representable"] += 1; continue      # overflow: outside the property
         if exp == "reject":
             if ok: rep.fail(f"C01/{cs['op']}/accepts-incompatible", f"{req['stmts']} returned {absval.short(absval.absval(ev['v']))} for incompatible shapes", replay)
             else: tally["reject_ok"] += 1
@@ -111,7 +131,7 @@ def run(rep, tier, seed):
     rep.cov.update({"states": t.generated, "transitions": max(t.generated - 1, 1), "distinct_states": t.distinct,
                     "traces_validated_against_impl": len(reqs), "cases_emitted": len(cases), "cases_replayed": len(reqs),
                     "exact_matched": tally["exact_ok"], "rejects_matched": tally["reject_ok"], "free_outcomes": tally["free"],
-                    "arms_hit": len(arms), "scalar_accepting_op_kinds": sum(1 for v in sacc.values() if v), "exhaustive": True,
+                    "arms_hit": len(arms), "operands_not_representable_in_kind(skipped)": skipped[0], "result_not_representable(free)": tally["result_not_representable"], "scalar_accepting_op_kinds": sum(1 for v in sacc.values() if v), "exhaustive": True,
                     "rule": "every operator x kind class x (lhs shape, rhs shape) of the bounded MechBroadcast model, replayed for every concrete kind of the class (14 numeric kinds, bool, string); result shape and every model-defined element compared"})
     rep.add_samples([{"stmts": r["stmts"][:-1], "exp": m[0]["exp"], "sig": m[0]["sig"]} for r, m in zip(reqs, meta)])
     rep.assumptions += ["TLC 1.8.0", "harness projection", "renderer lib/render.py", "value pools in spec/MC_C01.tla keep results representable"]
